@@ -14,7 +14,10 @@ use serde::de::DeserializeOwned;
 use serde::Serialize;
 use serde_json::{json, Value};
 
-pub const VERIF_DIR: &str = "/verif";
+/// Root of the verification tree (override with env VERIF_DIR when working in a git worktree).
+pub fn verif_dir() -> PathBuf {
+    PathBuf::from(std::env::var("VERIF_DIR").unwrap_or_else(|_| "/verif".to_string()))
+}
 
 #[derive(Clone, Copy, Debug, PartialEq, Eq)]
 pub enum Tier {
@@ -96,7 +99,7 @@ pub struct Ctx {
 impl Ctx {
     pub fn new(id: &str, tier: Tier) -> Self {
         let seed = std::env::var("VERIF_SEED").ok().and_then(|s| s.parse::<u64>().ok()).unwrap_or(20260921);
-        let path = Path::new(VERIF_DIR).join("known_findings.json");
+        let path = verif_dir().join("known_findings.json");
         let known: Vec<KnownFinding> = match std::fs::read(&path) {
             Ok(data) => serde_json::from_slice(&data).unwrap_or_else(|e| {
                 eprintln!("cannot parse {}: {}", path.display(), e);
@@ -242,7 +245,7 @@ pub fn hash_case<T: Serialize + Debug>(case: &T) -> u64 {
 }
 
 pub fn write_replay<T: Serialize + Debug>(ctx: &Ctx, case: &T, key: &str, msg: &str) -> PathBuf {
-    let dir = Path::new(VERIF_DIR).join("replays");
+    let dir = verif_dir().join("replays");
     let _ = std::fs::create_dir_all(&dir);
     let h = hash_case(case);
     let path = dir.join(format!("{}-{:016x}.json", ctx.id, h));
@@ -421,7 +424,7 @@ pub fn sample_strategy<T: Debug, S: Strategy<Value = T>>(strategy: &S, seed: u64
 }
 
 pub fn write_evidence(ctx: &Ctx, rep: &Report) {
-    let dir = Path::new(VERIF_DIR).join("evidence");
+    let dir = verif_dir().join("evidence");
     let _ = std::fs::create_dir_all(&dir);
     let mut coverage = serde_json::Map::new();
     coverage.insert("evaluations".into(), json!(rep.evaluations));
